@@ -262,9 +262,10 @@ Proof.
       discriminate (pull_ok_void _ _ _ _ _ _ _ _ _ EP).
     + rewrite (H NF). apply le_res_refl.
   - (* UIter *)
-    destruct (element_type (as_type v)) as [et|]; [|apply le_res_refl]. cbv zeta.
-    match goal with |- le_res (match call_def ex ?f ?a st sc with _ => _ end) _ =>
-      pose proof (call_mono f a st sc) as H end.
+    destruct (element_type (as_type v)) as [et|]; [|apply le_res_refl].
+    destruct (match alloc_default et st with Some ds => ds | None => (VVoid, st) end) as [d st0].
+    match goal with |- le_res (match call_def ex ?f ?a ?s sc with _ => _ end) _ =>
+      pose proof (call_mono f a s sc) as H end.
     runc H st1 sc1 s1. apply le_res_refl.
 Qed.
 
